@@ -185,6 +185,9 @@ def transform(spec):
             groups = {}
             for it in blk["inter"]:
                 groups.setdefault((it["sec"], tuple(it["atoms"])), []).append(it)
+            nat = len(blk["atoms"])
+            if any(len(v) > 1 and any(a >= nat for a in v[0]["atoms"]) for v in groups.values()):
+                continue        # repeated dangling definitions of the same atoms: their order is part of the meaning
             keys = list(groups)
             rnd.shuffle(keys)
             blk["inter"] = [it for k in keys for it in groups[k]]
